@@ -289,6 +289,8 @@ Definition show_unres (x : option errrec * list (option nat * option nat)) : str
   show_opt show_rec (fst x) ++ "#" ++ sjoin "," (map show_lc (snd x)).
 Definition show_out (o : outcome) : string :=
   match o with Loaded => "Loaded" | Propagates => "Propagates" | Fails e => "Fails:" ++ show_rec e end.
+Definition show_lcs (t : list N) (n : nat) : string :=
+  sjoin "," (map (fun p => let lc := pos_to_linecol t p in show_nat (fst lc) ++ ":" ++ show_nat (snd lc)) (seq 0 n)).
 Definition mk (n : option (list N)) (t : list N) : src := {| s_name := n; s_text := t |}.
 Definition er (f : option (list N)) (l c n : option nat) : errrec := {| r_file := f; r_line := l; r_col := c; r_nchar := n |}."""
 
